@@ -1148,3 +1148,33 @@ Proof.
   rewrite forallb_forall in H. specialize (H n Hn).
   destruct (members_of env n); [|discriminate]. apply andb_true_iff in H. tauto.
 Qed.
+
+(* ------------------------------------------------------------------------------------------ *)
+(* namespace creation produces valid layouts (given that the placement proposes distinct nodes) *)
+(* ------------------------------------------------------------------------------------------ *)
+Lemma wf_empty : wf empty_info.
+Proof. constructor; simpl; try constructor; try tauto; intros; contradiction. Qed.
+
+Lemma fold_add_wf : forall l i,
+  wf i -> removings i = [] -> NoDup l -> (forall x, In x l -> ~ In x (raft_nodes i)) ->
+  wf (fold_left add_node l i) /\ removings (fold_left add_node l i) = [].
+Proof.
+  induction l as [|a l IH]; intros i Hw Hr Hn Hd; simpl; [split; assumption|].
+  inversion Hn as [|? ? Ha Hn']; subst. apply IH.
+  - apply wf_add; [exact Hw|]. apply Hd. left. reflexivity.
+  - simpl. exact Hr.
+  - exact Hn'.
+  - intros x Hx. simpl. rewrite in_app_iff. simpl. intros [H|[H|[]]].
+    + apply (Hd x); [right; exact Hx|exact H].
+    + subst. contradiction.
+Qed.
+
+Lemma create_partition_inv : forall replica l i,
+  NoDup l -> create_partition replica l = Some i -> Inv replica i.
+Proof.
+  intros replica l i Hn H. unfold create_partition in H.
+  destruct (len (isr (fold_left add_node l empty_info)) <=? replica / 2) eqn:E; [discriminate|].
+  inversion H; subst. clear H.
+  destruct (fold_add_wf l empty_info wf_empty eq_refl Hn) as [Hw Hr]; [intros x _ []|].
+  split; [exact Hw|]. split; [rewrite Hr; unfold len; simpl; lia|]. apply N.leb_gt in E. exact E.
+Qed.
